@@ -3,26 +3,50 @@ PROP = dict(
         pkg="c17", level="exploration",
         technique=("scripted-environment PBT (rapid): real l1.Client + real Blockchain driven by a model L1 node, reached either directly "
                    "(L1StateProvider implemented by the model) or through the real GethL1StateProvider against an in-process Ethereum JSON-RPC "
-                   "node (go-ethereum rpc.Server over a websocket); invariants over every observed head + model comparison at count-based "
-                   "quiescence; -race"),
+                   "node (go-ethereum rpc.Server over a websocket); provider failures carry the adapter's error kinds (transport error, "
+                   "eth.ErrNotFound / JSON null for the finalized tag, context deadline) incl. long outages of the finalised-height query; "
+                   "Ethereum-like height geometry (tip hundreds of blocks above events and finalised height); invariants over every observed "
+                   "head + model comparison at count-based quiescence; -race"),
         level_text=("Exploration: generated L1-node scripts (hundreds per quick run, thousands per thorough run) executed against the real "
                     "concurrent client; per-value invariants checked at every OnNewL1Head / feed value / sampled L1Head() read and the stored head "
                     "compared with a reference model at every quiescent point. Samples the space of scripts and lets the Go scheduler/timers add "
                     "their own interleavings; does not enumerate interleavings and does not prove absence."),
         rule=("rapid-drawn script over a model Ethereum chain (blocks with 0-3 LogStateUpdate events, L2 numbers strictly increasing along the "
-              "canonical chain): mine, deliver queued logs, advance the finalised height, reorg depth 1-4 of the non-finalised suffix (Removed copies of "
-              "every delivered log, ascending or descending, then the new logs), subscription error, unreachable node with missed logs, failing "
-              "resubscriptions/FinalisedHeight/ChainID/LatestHeight/FilterStateUpdate, chain changes during the catch-up scan, chunk sizes 1-50, closing phase in which finality creeps to the tip block by block, "
-              "restart via Run or CatchUpL1Head (same DB, same or fresh Blockchain). The same scripts also run in geth mode "
+              "canonical chain; the initial chain may start with 2-1500 empty blocks and end with 5-1000 empty blocks, the initial finalised height "
+              "is inside the events, anywhere in 0..tip, or a fixed lag 0-300 below the tip): mine a block, mine a run of 5-1000 blocks without "
+              "events (labels gap>=63-blocks, unfinalised-event-64+-below-tip), deliver queued logs, advance the finalised height (+1, to an event "
+              "block, to tip-lag with lag 0/1/32/63/64/65/96/128/300, uniform up to the tip), reorg of the non-finalised suffix: depth 1-4, or deep "
+              "(label deep-reorg: down to any event block / any block above the finalised height, replacement chain mostly empty; label "
+              "reorg-of-delivered-event-64+-below-tip) with Removed copies of every delivered log, ascending or descending, then the new logs; "
+              "subscription error, unreachable node with missed logs, failing resubscriptions/FinalisedHeight/ChainID/LatestHeight/"
+              "FilterStateUpdate, every failure with a drawn KIND (generic transport error, the eth.ErrNotFound sentinel, wrapped "
+              "context.DeadlineExceeded; labels fin-error / fin-not-found / fin-deadline and fin-<kind>-with-unfinalised-event-64+-below-tip); "
+              "OUTAGE of the finalised-height query (label outage: from a drawn step on, or from the very start, EVERY poll fails - not-found x3 / "
+              "error / deadline / mixed pattern - until a drawn 'recover' step or the end of the script; meanwhile mining, deliveries (<= 96, the real "
+              "client does not read its 128-slot channel while it retries), finality progress, shallow and deep reorgs, subscription errors (label "
+              "sub-error-during-outage, the wait for the resubscription is made up after the outage), client restarts (label "
+              "client-start-during-outage) and 2-24 further polls per sync step go on; label fin-pattern>=20-failed-polls) or a FLAKY cyclic pattern "
+              "of answer kinds with at least one answer (label flaky-finalised-query); any LatestHeight call after the one of the catch-up scan is "
+              "answered by a drawn cyclic pattern of kinds; chain changes during the catch-up scan (reorg depth 1-4, 70 or 1000), chunk sizes 1-50 "
+              "(64/100/256/1000/5000 when the tip is more than 40 chunks up, so a scan stays within ~40 queries), closing phase in which finality "
+              "creeps to the tip block by block (event block by event block on a tall chain), restart via Run or CatchUpL1Head (same DB, same or "
+              "fresh Blockchain). During an outage no model comparison is made (nothing is reported as finalised); the per-value invariants - "
+              "head is a delivered, unremoved event at or below the largest finalised height REPORTED so far (an error or 'not found' reports "
+              "nothing) - are checked at every observation as always. The same scripts also run in geth mode "
               "(TestProp/TestRaceL1HeadScriptGeth, label via-geth-adapter): the model node answers eth_chainId / eth_blockNumber / "
               "eth_getBlockByNumber(finalized) / eth_getLogs / eth_subscribe(logs) over a websocket to the real l1.GethL1StateProvider, so logs and "
               "their removed=true copies (label geth-removed-log) pass through ethclient, the abigen filterer, forwardStateUpdates and "
-              "stateUpdateFromGethContract, injected failures are JSON-RPC errors, and a subscription failure is the node cutting the connection "
+              "stateUpdateFromGethContract, injected failures are JSON-RPC errors except 'not found' for eth_getBlockByNumber(finalized) (also "
+              "served: the safe and latest tags), which is answered with JSON null as a real execution client without a finalised checkpoint does "
+              "(label geth-finalized-null; the adapter maps it to eth.ErrNotFound), and a subscription failure is the node cutting the connection "
               "(label geth-connection-cut; rpc.Client reconnects, the client resubscribes); the harness waits on stream markers acknowledged at the "
               "adapter's output, then on counts. Non-trivial = a Removed copy is delivered for a buffered event, "
               "or finality advances past >= 2 buffered L1 blocks at once, or a restart/resubscription happens with a non-empty buffer; distinct = "
               "distinct SHA-256 of the rendered script."),
-        assumptions=["the L1 node is well-behaved: finalised height monotone, finalised blocks never reorged, a Removed copy is delivered for every "
+        assumptions=["an error, a 'not found' (null) answer or an expired context of the finalised-height query reports NOTHING as finalised; "
+                     "during an outage of that query the real client sits in its retry loop and reads neither its channel nor the subscription "
+                     "error, so at most 96 logs are delivered per outage and the waits for resubscription are postponed to the end of the outage",
+                     "the L1 node is well-behaved: finalised height monotone, finalised blocks never reorged, a Removed copy is delivered for every "
                      "delivered log of a reorged block before any log of the replacing blocks and before finality reaches that height",
                      "logs are delivered in chain order; logs mined while the node is unreachable may be missed (then they are not 'delivered')",
                      "after a failed catch-up scan the documented lag is accepted: 'delivered' means delivered to the running client instance, "
